@@ -22,7 +22,8 @@ import time
 
 from . import canon, env, known, rec as recmod
 
-EVID = os.path.join(env.VERIF, 'evidence')
+EVID = os.environ.get('VERIF_EVIDENCE_DIR') or \
+    os.path.join(env.VERIF, 'evidence')
 REPLAYS = os.path.join(EVID, 'replays')
 MAX_VIOLATION_LINES = 12
 
